@@ -869,6 +869,7 @@ bool Builder::StartEdge(Edge* edge, string* err) {
       build_start = disk_interface_->Stat(lock_file_path_, err);
       if (build_start == -1)
         build_start = 0;
+      NINJA_VERIF_POINT("start.lock");
     }
   }
 
@@ -887,6 +888,7 @@ bool Builder::StartEdge(Edge* edge, string* err) {
     string content = edge->GetBinding("rspfile_content");
     if (!disk_interface_->WriteFile(rspfile, content, true))
       return false;
+    NINJA_VERIF_POINT("start.rsp");
   }
 
   // start command computing and run it
@@ -924,6 +926,7 @@ bool Builder::FinishCommand(BuildResult::CommandCompleted& result,
     }
   }
 
+  NINJA_VERIF_POINT("finish.extractdeps");
   int64_t start_time_millis, end_time_millis;
   RunningEdgeMap::iterator it = running_edges_.find(edge);
   start_time_millis = it->second;
@@ -974,13 +977,16 @@ bool Builder::FinishCommand(BuildResult::CommandCompleted& result,
     }
   }
 
+  NINJA_VERIF_POINT("finish.restat");
   if (!plan_.EdgeFinished(edge, Plan::kEdgeSucceeded, err))
     return false;
+  NINJA_VERIF_POINT("finish.plan");
 
   // Delete any left over response file.
   string rspfile = edge->GetUnescapedRspfile();
   if (!rspfile.empty() && !g_keep_rsp)
     disk_interface_->RemoveFile(rspfile);
+  NINJA_VERIF_POINT("finish.rsp");
 
   if (scan_.build_log()) {
     if (!scan_.build_log()->RecordCommand(
@@ -989,6 +995,7 @@ bool Builder::FinishCommand(BuildResult::CommandCompleted& result,
       *err = string("Error writing to build log: ") + strerror(errno);
       return false;
     }
+    NINJA_VERIF_POINT("finish.log");
   }
 
   if (!deps_type.empty() && !config_.dry_run) {
@@ -1002,6 +1009,7 @@ bool Builder::FinishCommand(BuildResult::CommandCompleted& result,
         *err = std::string("Error writing to deps log: ") + strerror(errno);
         return false;
       }
+      NINJA_VERIF_POINT("finish.deps");
     }
   }
   return true;
@@ -1058,6 +1066,7 @@ bool Builder::ExtractDeps(BuildResult::CommandCompleted& result,
       deps_nodes->push_back(state_->GetNode(*i, slash_bits));
     }
 
+    NINJA_VERIF_POINT("extractdeps.pre_remove");
     if (!g_keep_depfile) {
       if (disk_interface_->RemoveFile(depfile) < 0) {
         *err = string("deleting depfile: ") + strerror(errno) + string("\n");
